@@ -5,6 +5,7 @@
 package zzv
 
 import (
+	"context"
 	"encoding/json"
 	"fmt"
 	"math"
@@ -13,6 +14,7 @@ import (
 	"strconv"
 	"strings"
 	"sync"
+	"syscall"
 	"time"
 )
 
@@ -364,4 +366,110 @@ func RunHarness(fn func()) (assumeOK bool, panicked interface{}) {
 	}()
 	fn()
 	return
+}
+
+// ---- file metadata and external commands (C18 / C19) ----
+
+// FileInfo is the os.FileInfo the engine's os.Stat model returns (plain Go, interpreted).
+type FileInfo struct {
+	M  os.FileMode
+	St *syscall.Stat_t
+}
+
+func (f FileInfo) Name() string       { return "zz" }
+func (f FileInfo) Size() int64        { return 0 }
+func (f FileInfo) Mode() os.FileMode  { return f.M }
+func (f FileInfo) ModTime() time.Time { return time.Time{} }
+func (f FileInfo) IsDir() bool        { return false }
+func (f FileInfo) Sys() any           { return f.St }
+
+// Ctx is the context the engine's context.WithTimeout model returns.
+type Ctx struct{ E error }
+
+func (c *Ctx) Deadline() (time.Time, bool) { return time.Time{}, false }
+func (c *Ctx) Done() <-chan struct{}        { return nil }
+func (c *Ctx) Err() error                   { return c.E }
+func (c *Ctx) Value(key any) any            { return nil }
+
+var _ context.Context = (*Ctx)(nil)
+
+func NoopCancel() {}
+
+// StatPut gives the file at path the stated existence, owner, group and permission bits.
+// Native runs create the real file (needs root for chown); content is a shell script.
+func StatPut(path string, exists bool, uid, gid uint32, mode uint32) {
+	_ = os.Remove(path)
+	if !exists {
+		return
+	}
+	if err := os.WriteFile(path, []byte(scriptBody(path)), 0o700); err != nil {
+		panic(err)
+	}
+	if err := os.Chown(path, int(uid), int(gid)); err != nil {
+		panic(err)
+	}
+	if err := os.Chmod(path, os.FileMode(mode&0o777)); err != nil {
+		panic(err)
+	}
+}
+
+var scripts = map[string]string{}
+
+func scriptBody(path string) string {
+	if b, ok := scripts[path]; ok {
+		return b
+	}
+	return "#!/bin/sh\necho ran > " + path + ".marker\necho 42\n"
+}
+
+// Executed reports whether the command at path has run (it leaves a marker).
+func Executed(path string) bool {
+	_, err := os.Stat(path + ".marker")
+	return err == nil
+}
+
+// RealCommands makes the engine interpret the real util.SafeCmdExecution (instead of the
+// cat/sh command model used by the controller harnesses). No effect natively.
+func RealCommands() {}
+
+// ResetExecuted forgets that the command at path has run.
+func ResetExecuted(path string) { _ = os.Remove(path + ".marker") }
+
+// SymlinkPut makes link a symbolic link to target.
+func SymlinkPut(link, target string) {
+	_ = os.Remove(link)
+	if err := os.Symlink(target, link); err != nil {
+		panic(err)
+	}
+}
+
+// Exec scenarios for ExecScenario.
+const (
+	ExecOK        = 0 // prints text, exit 0
+	ExecExitError = 1 // exit status 3 (with output)
+	ExecNoStart   = 2 // passes the permission check but cannot be started (not executable)
+	ExecBadFormat = 3 // executable bit set but not a valid program
+	ExecTimeout   = 4 // sleeps beyond the deadline
+)
+
+// ExecScenario prepares the command at path to behave as stated when executed; text is what it prints.
+func ExecScenario(path string, scenario int, text string) {
+	body := "#!/bin/sh\nprintf '%s' '" + text + "'\n"
+	mode := os.FileMode(0o755)
+	switch scenario {
+	case ExecExitError:
+		body += "exit 3\n"
+	case ExecNoStart:
+		mode = 0o644
+	case ExecBadFormat:
+		body = "\x7fELFgarbage"
+	case ExecTimeout:
+		body = "#!/bin/sh\nsleep 4\n"
+	}
+	scripts[path] = body
+	_ = os.Remove(path)
+	if err := os.WriteFile(path, []byte(body), mode); err != nil {
+		panic(err)
+	}
+	_ = os.Chmod(path, mode)
 }
